@@ -37,6 +37,10 @@ pub fn read_version_info(mem: &[u8], mut offset: usize, infos: &mut Vec<VersionI
 
     // Skip VarFileInfo, if any
     while let Some(length) = read_var_file_info(mem, offset) {
+        // A zero length would never advance: stop instead of looping forever.
+        if length == 0 {
+            break;
+        }
         offset += align32(length);
     }
 
@@ -47,8 +51,9 @@ pub fn read_version_info(mem: &[u8], mut offset: usize, infos: &mut Vec<VersionI
         }
 
         match read_string_file_info(mem, offset, infos) {
-            Some(length) => offset += length,
-            None => break,
+            // A zero length would never advance: stop instead of looping forever.
+            Some(length) if length > 0 => offset += length,
+            _ => break,
         }
     }
 }
@@ -96,8 +101,9 @@ fn read_string_file_info(
         }
 
         match read_string_table(mem, offset, out) {
-            Some(length) => offset += length,
-            None => break,
+            // A zero length would never advance: stop instead of looping forever.
+            Some(length) if length > 0 => offset += length,
+            _ => break,
         }
     }
 
@@ -123,8 +129,9 @@ fn read_string_table(mem: &[u8], mut offset: usize, out: &mut Vec<VersionInfo>) 
         }
 
         match read_string(mem, offset, out) {
-            Some(length) => offset += length,
-            None => break,
+            // A zero length would never advance: stop instead of looping forever.
+            Some(length) if length > 0 => offset += length,
+            _ => break,
         }
     }
 
